@@ -19,7 +19,7 @@ srcs = [os.path.join(d, 'main.cc'), os.path.join(VERIF, 'harness/cxx_stream.cc')
 exe = os.path.join(d, 'run')
 import concurrent.futures as cf
 def comp(s_):
-    o = os.path.join(d, os.path.basename(s_) + '.o'); rc, out = sh(['g++', '-O0', '-w', f'-I{bx}', '-c', s_, '-o', o], timeout=900)
+    o = os.path.join(d, os.path.basename(s_) + '.o'); rc, out = sh(['g++', '-O0', '-w'] + ([f'-I{os.environ["CXXSTREAM_HDR_DIR"]}'] if os.environ.get('CXXSTREAM_HDR_DIR') else []) + [f'-I{bx}', '-c', s_, '-o', o], timeout=900)
     if rc != 0: print(out[-3000:]); sys.exit(2)
     return o
 with cf.ThreadPoolExecutor(max_workers=16) as ex: srcs = list(ex.map(comp, srcs))
@@ -31,5 +31,5 @@ print('run rc', rc, out[-500:])
 if 'keep' in sys.argv: shutil.copy(tr, '/tmp/cxxstream.ndjson'); shutil.copy(rows, '/tmp/cxxstream.rows')
 props.split_validate(ctx, tr, 'cs')
 print(ctx.trace_stats, ctx.timing)
-for v in ctx.violations[:12]: print(v)
+for v in ctx.violations[:12]: print(str(v)[:700])
 print(len(ctx.violations), 'violations')
